@@ -196,8 +196,12 @@ def main(argv):
         # special analyses
         for sp in P.get('special', []):
             mod = importlib.import_module('govc.special_' + sp)
-            for (name, smt, text) in mod.generate(prog, contracts, P, tier, results, funcs_report):
-                tasks.append((sp, _Pseudo(name, 'special', text), smt, 'obl'))
+            for tup in mod.generate(prog, contracts, P, tier, results, funcs_report):
+                name, smt, text = tup[:3]
+                ps = _Pseudo(name, 'special', text)
+                ps.meta = tup[3] if len(tup) > 3 else None
+                ps.special = sp
+                tasks.append((sp, ps, smt, 'obl'))
     order = ('z3-5.1', 'z3-4.8', 'cvc5')
     futs = []
     for (key, ob, smt, mode) in tasks:
@@ -208,7 +212,8 @@ def main(argv):
     covers_ok = 0
     for (key, ob, smt, mode), fu in zip(tasks, futs):
         r = fu.result()
-        r.update({'name': ob.name, 'func': key, 'kind': ob.kind, 'pos': getattr(ob, 'pos', ''), 'text': getattr(ob, 'text', ''), 'size': len(smt), 'mode': mode})
+        r.update({'name': ob.name, 'func': key, 'kind': ob.kind, 'pos': getattr(ob, 'pos', ''), 'text': getattr(ob, 'text', ''), 'size': len(smt), 'mode': mode,
+                  'meta': getattr(ob, 'meta', None), 'special': getattr(ob, 'special', None)})
         if mode == 'cover':
             if r['verdict'] == 'unsat':
                 r['verdict'] = 'vacuous'
@@ -235,7 +240,14 @@ def main(argv):
         payload = {'property': pid, 'obligation': r['name'], 'verdict': r['verdict'], 'clause': r.get('text'), 'pos': r.get('pos'),
                    'solver_details': r.get('details'), 'reason': r.get('reason'), 'model': r.get('model'), 'smt2': r.get('path')}
         suffix = ' no-failing-input-found'
-        if r['verdict'] == 'sat' and r.get('model') and prog is not None:
+        if r.get('special') and prog is not None:
+            try:
+                mod = importlib.import_module('govc.special_' + r['special'])
+                if hasattr(mod, 'replay') and mod.replay(prog, r, payload, REPO, VERIF):
+                    suffix = ''
+            except Exception as e:
+                payload['replay_error'] = str(e)
+        elif r['verdict'] == 'sat' and r.get('model') and prog is not None:
             try:
                 from .replay import try_replay
                 rep = try_replay(prog, r, payload, REPO, VERIF)
